@@ -549,6 +549,37 @@ def rawinput(ctx):
                    "longer taken byte for byte (e.g. a feature ending in a space, or trailing "
                    "cells, are altered)" % (p.split("::")[-1], ", ".join(bad) or "source not found"))
     ctx.floor("RAWINPUT", "callers of Lexicon::parse_csv", n, 5)
+    # one level up: library functions that take the caller's reader and hand it to a lexicon
+    # reader (Lexicon::from_reader, UnkHandler::from_reader) pass that very reader - not a
+    # buffer they read, edited and wrapped again (CR stripping, trimming, re-encoding)
+    m = 0
+    for p, f in sorted(crate.fns.items()):
+        if not f.body or f.krate != "vibrato":
+            continue
+        fa = E.fa(p)
+        for b, t in fa.calls():
+            ps = [strip_generics(x) for x in callee_paths(t)]
+            if not any(x.endswith("Lexicon::from_reader") or x.endswith("UnkHandler::from_reader") for x in ps):
+                continue
+            m += 1
+            o = fa.origin(t["args"][0])
+            for _ in range(4):
+                # lossless wrappers of a reader
+                if o[0] == "call" and o[2]["args"] and (
+                        sorted(_names(o[2]))[0] in ("by_ref", "as_mut", "borrow_mut") or
+                        (sorted(_names(o[2]))[0] == "new" and "BufReader" in " ".join(_paths(o[2])))):
+                    o = fa.origin(o[2]["args"][0])
+                else:
+                    break
+            okr = o[0] == "arg" or (o[0] == "place" and o[1].root[0] == "arg")
+            ctx.ob("RAWINPUT", "%s|reader-passed-through|%s" % (p, ps[0].rsplit("::", 2)[-2]), okr, fa.loc(b),
+                   "%s hands its caller's reader to %s unchanged" % (p.split("::")[-1], "::".join(ps[0].split("::")[-2:]))
+                   if okr else
+                   "%s does not hand its caller's reader to %s but something it built itself (%s): "
+                   "the rows can be altered before the lexicon parser sees them (e.g. bytes "
+                   "stripped regardless of quoting)" % (p.split("::")[-1], "::".join(ps[0].split("::")[-2:]),
+                                                        o[0] if o[0] != "call" else "result of " + sorted(_names(o[2]))[0]))
+    ctx.floor("RAWINPUT", "library callers of the lexicon readers", m, 4)
 
 
 def csvdefault(ctx):
